@@ -19,7 +19,7 @@ CLAIMED = {
         note=NOTE + "serde's Serialize impls for the values the harness constructs; collect_str's Display is a list of pieces",
         design="4 (C02)"),
     'C03': dict(
-        text="C03_de_is_spec: on every byte string and every shape the implementation-shaped bit-level decoder equals the arithmetic reference decoder spec_de written from wire-format.md (acceptance, value, remainder, error kind); C03_varint_exact: the reference varint reader accepts exactly the permitted encodings incl. non-minimal ones (iff with the declarative valid_varint); C03_varint_errors classifies truncation vs bad varint; C03_accepts_encodings: every encoding is accepted with the remainder untouched. The declarative relation for composite shapes and the strict-prefix theorem are not yet proved (the harness checks every strict prefix of every generated encoding against the implementation). Direct oracle: independent Rust decoder from the spec, exhaustive short strings.",
+        text="C03_de_is_spec: on every byte string and every shape the implementation-shaped bit-level decoder equals the arithmetic reference decoder spec_de written from wire-format.md (acceptance, value, remainder, error kind); C03_varint_exact: the reference varint reader accepts exactly the permitted encodings incl. non-minimal ones (iff with the declarative valid_varint); C03_varint_errors classifies truncation vs bad varint; C03_accepts_encodings: every encoding is accepted with the remainder untouched. C03_remaining_bytes_irrelevant: a successful decode consumes a prefix that alone determines the result; C03_strict_prefix_unexpected_end: every strict prefix of a valid message of any shape fails with unexpected-end (every reader is a local parser; locality is closed under sequencing and iteration). Direct oracle: independent Rust decoder from the spec, exhaustive short strings.",
         note=NOTE + "serde visitors (DynVal shape-directed seeds in the harness), from_utf8",
         design="4 (C03)"),
     'C04': dict(
@@ -66,7 +66,7 @@ CLAIMED = {
         note=NOTE + "rustc + serde impls + serde_derive + the Schema derive (their joint output is captured at run time, not modelled); nalgebra integration not built in the harness",
         design="7 (C14)"),
     'C15': dict(
-        text="C15_decl_agree: the borrowed (mod.rs) and owned (owned.rs) enum/struct declarations, as the translator reads them on every run, agree variant for variant and field for field; C15_conversion_faithful: the From<&DataModelType> family, interpreted from its translated arm tables, is the identity on the common tree view (every kind, name, order, nesting preserved) for every schema tree; C15_same_bytes: both forms serialise to identical bytes; C15_roundtrip: those bytes followed by anything decode (owned enum unfolded deep enough) to the conversion, consuming exactly them; C15_read_back: the decoded value determines the tree. Correspondence + direct oracles: random trees over all 26+4 kinds with random names, leaked to 'static; bytes vs an independent encoder; conversion vs directly built owned tree; truncated/mutated bytes vs the model's decoder.",
+        text="C15_decl_agree: the borrowed (mod.rs) and owned (owned.rs) enum/struct declarations, as the translator reads them on every run, agree variant for variant and field for field; C15_conversion_faithful: the From<&DataModelType> family, interpreted from its translated arm tables, is the identity on the common tree view (every kind, name, order, nesting preserved) for every schema tree; C15_same_bytes: both forms serialise to identical bytes; C15_roundtrip: those bytes followed by anything decode (owned enum unfolded deep enough) to the conversion, consuming exactly them; C15_read_back: the decoded value determines the tree; C15_decoder_complete: the executable schema decoder used by the runner returns the tree and what follows (every level of nesting costs at least one byte). Correspondence + direct oracles: random trees over all 26+4 kinds with random names, leaked to 'static; bytes vs an independent encoder; conversion vs directly built owned tree; truncated/mutated bytes vs the model's decoder.",
         note=NOTE + "serde derive(Serialize/Deserialize) on the four schema types (modelled from the declarations: variant index = declaration order, fields in declared order); Box/slice/str plumbing of the conversions",
         design="7 (C15)"),
     'C16': dict(
